@@ -20,7 +20,8 @@ const P_ENV: [&str; 6] = ["SCCACHE_C_CUSTOM_CACHE_BUSTER", "CPATH", "C_INCLUDE_P
 #[derive(Clone, Debug, PartialEq)]
 struct Req { pre: bool, ign: bool, digest: String, plusplus: bool, lang: usize, args: Vec<Vec<u8>>, extra: Vec<String>, env: Vec<(Vec<u8>, Vec<u8>)>,
     pp: Vec<u8>,            // C key: preprocessor output; pre key: contents of the input file
-    path: Vec<u8> }         // pre key only: file name component appended to the scratch dir
+    path: Vec<u8>,          // pre key only: file name component appended to the scratch dir
+    keep_mtime: bool }      // pre key only: write the input file and give it back the modification time it had (cp -p, tar, rsync -t)
 
 fn hl(l: &[Vec<u8>]) -> String { if l.is_empty() { "-".into() } else { l.iter().map(|x| hex_e(x)).collect::<Vec<_>>().join(",") } }
 
@@ -40,7 +41,9 @@ impl Req {
         if self.pre {
             let mut p = dir.as_bytes().to_vec(); p.push(b'/'); p.extend(&self.path);
             let path = std::path::PathBuf::from(OsString::from_vec(p));
+            let old = if self.keep_mtime { std::fs::metadata(&path).ok().and_then(|m| m.modified().ok()) } else { None };
             std::fs::write(&path, &self.pp).unwrap();
+            if let Some(t) = old { std::fs::File::options().write(true).open(&path).unwrap().set_modified(t).unwrap(); }
             let cfg = sccache::config::PreprocessorCacheModeConfig { ignore_time_macros: self.ign, ..Default::default() };
             preprocessor_cache_entry_hash_key(&self.digest, LANGS[self.lang], &args, &self.extra, &env, &path, self.plusplus, cfg).ok().flatten()
         } else { Some(hash_key(&self.digest, LANGS[self.lang], &args, &self.extra, &env, &self.pp, self.plusplus)) }
@@ -69,14 +72,14 @@ fn gen_req(rng: &mut Rng, pre: bool) -> Req {
         args: (0..nargs).map(|_| { let t = rng.chance(3, 4); bytes(rng, 8, t) }).collect(),
         extra: (0..nextra).map(|_| hexdigest(rng)).collect(),
         env: (0..nenv).map(|_| { let k = if rng.chance(2, 3) { rng.pick(allow).as_bytes().to_vec() } else if rng.chance(1, 2) { rng.pick(&C_ENV).as_bytes().to_vec() } else { bytes(rng, 6, true) }; (k, bytes(rng, 6, false)) }).collect(),
-        pp: pp_text(rng), path: { let mut p = b"in_".to_vec(); p.extend(bytes(rng, 4, true).iter().map(|b| if *b == b'/' || *b == b' ' { b'_' } else { *b })); p } }
+        pp: pp_text(rng), path: { let mut p = b"in_".to_vec(); p.extend(bytes(rng, 4, true).iter().map(|b| if *b == b'/' || *b == b' ' { b'_' } else { *b })); p }, keep_mtime: false }
 }
 
 /// pair families of the property's quantifier; returns (family name, first, second request)
 fn mutate(rng: &mut Rng, r: &Req) -> (&'static str, Req, Req) {
     let mut s = r.clone(); let mut f = r.clone();
     let allow: &[&str] = if r.pre { &P_ENV } else { &C_ENV };
-    let name = match rng.below(18) {
+    let name = match rng.below(20) {
         0 => { s.digest = hexdigest(rng); "digest" }
         1 => { s.plusplus = !s.plusplus; "plusplus" }
         2 => { s.lang = rng.below(14) as usize; "language" }
@@ -102,6 +105,9 @@ fn mutate(rng: &mut Rng, r: &Req) -> (&'static str, Req, Req) {
             let e = s.extra.pop().unwrap(); s.pp = [e.as_bytes(), &s.pp].concat(); "extra_payload_shift" }
         16 if r.pre => { s.path.push(b'2'); "input_path" }
         14 | 15 | 16 => { s.pp.insert(0, b'#'); "payload" }
+        17 | 18 => { // the same bytes count, one byte different; for an input file: rewritten in place with its old modification time
+            if s.pp.is_empty() { s.pp.push(b'a'); f.pp.push(b'b'); } else { let i = rng.below(s.pp.len() as u64) as usize; s.pp[i] = if s.pp[i] == b'q' { b'r' } else { b'q' }; }
+            if r.pre { s.keep_mtime = true; "input_same_size_same_mtime" } else { "payload_same_size" } }
         _ => "identical",
     };
     (name, f, s)
@@ -222,7 +228,7 @@ fn main() {
                 let cfg = sccache::config::PreprocessorCacheModeConfig { ignore_time_macros: t[1] == "1", ..Default::default() };
                 println!("{:?}", preprocessor_cache_entry_hash_key(&digest, LANGS[lang], &args, &extra, &envo, &full, t[o + 1] == "1", cfg).ok().flatten());
             } else {
-                let r = Req { pre: false, ign: false, digest, plusplus: t[1] == "1", lang, args: unl(t[3]), extra, env, pp: if t[7] == "-" { vec![] } else { unhex(t[7]) }, path: vec![] };
+                let r = Req { pre: false, ign: false, digest, plusplus: t[1] == "1", lang, args: unl(t[3]), extra, env, pp: if t[7] == "-" { vec![] } else { unhex(t[7]) }, path: vec![], keep_mtime: false };
                 println!("{}", r.real("/nonexistent").unwrap());
             }
         }
